@@ -120,6 +120,15 @@ def UnCps(a):
   return ''.join(chr(c) for c in a)
 
 
+def StatementBoundaries(tc):
+  """Boundaries where an empty statement may stand (LLex!CanEmpty)."""
+  n = len(tc['toks'])
+  semi = [ord(';')]
+  return [b for b in range(n + 1)
+          if b in (0, n) or tc['toks'][b - 1] == semi or
+          (b < n and tc['toks'][b] == semi)]
+
+
 def WrappableRanges(case):
   seen = []
   for r in case['ranges']:
@@ -139,14 +148,21 @@ def TlcCase(case, cid, str_fill=None, cfill=DEFAULT_CFILL):
 
 # ---- rendering (twin of LLex!Render) ------------------------------------------
 
-EMPTY_LAYOUT = {'sites': [], 'wraps': [], 'nests': [], 'semi': 0}
+EMPTY_LAYOUT = {'sites': [], 'wraps': [], 'nests': [], 'empties': [],
+                'semi': 0}
 
 
 def NormLayout(lay):
   """All four components present (nests: [{'w', 'd', 'k'}] = d layers of
   redundant parentheses around range w with noise k between the layers)."""
   return {'sites': list(lay.get('sites', [])), 'wraps': list(lay.get('wraps', [])),
-          'nests': list(lay.get('nests', [])), 'semi': lay.get('semi', 0)}
+          'nests': list(lay.get('nests', [])),
+          'empties': list(lay.get('empties', [])), 'semi': lay.get('semi', 0)}
+
+
+# every ASCII layout character besides blank and newline, and CRLF line ends
+CONTROL_SPACE = {'tab': '\t', 'cr': '\r', 'ff': '\f', 'vt': '\v',
+                 'crlf': '\r\n'}
 
 
 def NoiseText(k, cfill):
@@ -158,6 +174,8 @@ def NoiseText(k, cfill):
     return '#' + cfill + '\n'
   if k == 'block':
     return '/*' + cfill + '*/'
+  if k in CONTROL_SPACE:
+    return CONTROL_SPACE[k]
   raise ValueError(k)
 
 
@@ -171,7 +189,8 @@ def Render(tc, lay=None, cfill=None, strip_comments=False):
   cfill = UnCps(tc['cfill']) if cfill is None else cfill
   if strip_comments:
     def NoiseText(k, cfill):  # pylint: disable=redefined-outer-name
-      return {'sp': ' ', 'nl': '\n', 'hash': '\n', 'block': ''}[k]
+      return dict({'sp': ' ', 'nl': '\n', 'hash': '\n', 'block': ''},
+                  **CONTROL_SPACE)[k]
   else:
     NoiseText = globals()['NoiseText']
   n = len(toks)
@@ -190,6 +209,11 @@ def Render(tc, lay=None, cfill=None, strip_comments=False):
                           if tc['ranges'][x['w'] - 1][1] == b]))
     if b == n and lay['semi']:
       out.append(';')
+    for e in lay['empties']:
+      if e['b'] == b:
+        out.append(';' if e['c'] == 0 else
+                   ';' + NoiseText('block' if e['c'] == 1 else 'hash', cfill)
+                   + ';')
     if (b, 'L') in site:
       out.append(NoiseText(site[(b, 'L')], cfill))
     if tc['sep'][b]:
